@@ -666,10 +666,17 @@ func runC10(c *hx.Ctx) {
 		case 7:
 			index = -1 - int64(r.Intn(3))
 		}
+		// the slice handed over has no spare capacity: reading past the tile's width faults
+		data = append(make([]byte, 0, len(data)), data...)
 		var hh tlog.Hash
 		var err error
 		p, _ := hx.Guard(func() { hh, err = tlog.HashFromTile(t, data, index) })
 		arg := wire.L(gen.TileVal(t), wire.Bytes(data), wire.I(index))
+		if !p && err == nil {
+			// contract: accepted only if the index lies in this tile, within its width
+			msg := c10HashFromTileDomain(t, len(data), index)
+			c.Check("hash-from-tile-domain", msg == "", "", c10In{Op: "hftdomain", Tile: &t, Index: index, N: int64(len(data))}, msg)
+		}
 		{
 			msg := ""
 			if p && index >= 0 {
@@ -866,7 +873,7 @@ func runC10(c *hx.Ctx) {
 	}
 
 	// correspondence subset within the model's budget (the extracted SHA-256 costs ~1.4 ms per hash)
-	budget := 20000 * c.Scale
+	budget := 17000 * c.Scale
 	r.Shuffle(len(cands), func(i, j int) { cands[i], cands[j] = cands[j], cands[i] })
 	spent := 0
 	for i := range cands {
@@ -878,6 +885,25 @@ func runC10(c *hx.Ctx) {
 		spent += cd.cost
 	}
 	c.Count(fmt.Sprintf("read:model-budget-spent=%d", spent))
+}
+
+// HashFromTile(t, data, index) may succeed only if t is a valid hash tile, data holds its W
+// entries, and the hash at index is computable from the first W entries of exactly this tile.
+func c10HashFromTileDomain(t tlog.Tile, dataLen int, index int64) string {
+	if t.H < 1 || t.H > 30 || t.L < 0 || t.L >= 64 || t.W < 1 || t.W > 1<<uint(t.H) {
+		return fmt.Sprintf("HashFromTile accepted the invalid tile %v", t)
+	}
+	if dataLen < t.W*tlog.HashSize {
+		return fmt.Sprintf("HashFromTile(%v) accepted %d bytes of data", t, dataLen)
+	}
+	if index < 0 {
+		return fmt.Sprintf("HashFromTile(%v) accepted index %d", t, index)
+	}
+	st, ok := c10SpecTileForIndex(t.H, index)
+	if !ok || st.L != t.L || st.N != t.N || st.W > t.W {
+		return fmt.Sprintf("HashFromTile(%v, _, %d) succeeded, but the hash lies in %v (width needed %d)", t, index, st, st.W)
+	}
+	return ""
 }
 
 func c10TileInLog(t tlog.Tile, size int64) bool {
@@ -942,6 +968,14 @@ func replayC10(raw json.RawMessage) (bool, string) {
 		hh, err := tlog.HashFromTile(t, small.IndepTile(t), in.Index)
 		if err == nil && !(in.Index >= 0 && in.Index < int64(len(small.store)) && hh == small.store[in.Index]) {
 			msg = fmt.Sprintf("HashFromTile(%v, true data, %d) is not the true hash", t, in.Index)
+		}
+	case "hftdomain":
+		t := *in.Tile
+		data := make([]byte, in.N)
+		var err error
+		p, _ := hx.Guard(func() { _, err = tlog.HashFromTile(t, data, in.Index) })
+		if !p && err == nil {
+			msg = c10HashFromTileDomain(t, int(in.N), in.Index)
 		}
 	case "hftpanic":
 		t := *in.Tile
